@@ -42,6 +42,7 @@ type SrvPeer struct {
 	NoDupCheck  bool
 	NoTagRules  bool // tag discipline is C09's business; after a connection failure the client's last writes are not judged
 	MaxOutst    int
+	nOutst      int
 	TagReuse    int
 	seenTags    map[uint16]bool
 	FailPos     int // server->client stream offset where an unparseable/unknown reply starts (-1: none)
@@ -127,12 +128,9 @@ func (p *SrvPeer) noteTag(m *Msg) {
 	}
 	p.seenTags[m.Tag] = true
 	p.outstanding[m.Tag]++
-	n := 0
-	for _, c := range p.outstanding {
-		n += c
-	}
-	if n > p.MaxOutst {
-		p.MaxOutst = n
+	p.nOutst++
+	if p.nOutst > p.MaxOutst {
+		p.MaxOutst = p.nOutst
 	}
 }
 
@@ -154,6 +152,9 @@ func (p *SrvPeer) Send(r *PReq, b []byte) {
 		r.AnsStep = rt.Step()
 		if p.outstanding[r.M.Tag] > 0 {
 			p.outstanding[r.M.Tag]--
+			if !p.NoTagRules && r.M.Type != Tversion {
+				p.nOutst--
+			}
 		}
 	}
 }
